@@ -214,3 +214,61 @@ func init() {
 		return intrinsics["strings.Count"](fr, []value{a[0], mkStr([]value{a[1]})})
 	}
 }
+
+func init() {
+	// sort.Slice / sort.SliceStable: stable insertion sort with in-place swaps
+	// (the less function reads the slice by index); a symbolic comparison
+	// result is a decision.
+	sortSlice := func(fr *frame, a []value) value {
+		xs, ok := a[0].(iface).v.([]value)
+		if !ok {
+			panic(unsupported{"sort.Slice of a non-slice value"})
+		}
+		less := a[1]
+		for i := 1; i < len(xs); i++ {
+			for j := i; j > 0; j-- {
+				r := call(fr.i, fr, 0, less, []value{j, j - 1})
+				lt := false
+				switch b := r.(type) {
+				case bool:
+					lt = b
+				case *Sym:
+					lt = X.decide(b)
+				}
+				if !lt {
+					break
+				}
+				checkWrite(&xs[j], fr)
+				checkWrite(&xs[j-1], fr)
+				xs[j], xs[j-1] = xs[j-1], xs[j]
+			}
+		}
+		return nil
+	}
+	intrinsics["sort.Slice"] = sortSlice
+	intrinsics["sort.SliceStable"] = sortSlice
+	intrinsics["sort.Ints"] = func(fr *frame, a []value) value {
+		xs := a[0].([]value)
+		for i := 1; i < len(xs); i++ {
+			for j := i; j > 0; j-- {
+				if !decideT(term2lt(xs[j], xs[j-1])) {
+					break
+				}
+				checkWrite(&xs[j], fr)
+				checkWrite(&xs[j-1], fr)
+				xs[j], xs[j-1] = xs[j-1], xs[j]
+			}
+		}
+		return nil
+	}
+}
+
+func term2lt(a, b value) string {
+	if !isSym(a) && !isSym(b) {
+		if asInt64(a) < asInt64(b) {
+			return "true"
+		}
+		return "false"
+	}
+	return "(< " + term(a) + " " + term(b) + ")"
+}
